@@ -244,6 +244,82 @@ inductive Out
   | err (e : Exc)             -- the statement raised
 deriving Repr
 
+/-! ### objects as class + value slots + referenced parts (shared with the heap model) -/
+
+inductive SeqKind | ins | outs | stacks | txs
+deriving DecidableEq, Repr
+
+/-- class of an object together with its value-holding attribute slots -/
+inductive Scalars
+  | outpoint (hash : Bytes) (n : Nat)                 -- refs = []
+  | txin (scriptSig : Bytes) (nSequence : Nat)        -- refs = [prevout]
+  | txout (nValue : Int) (scriptPubKey : Bytes)       -- refs = []
+  | seq (k : SeqKind)                                 -- refs = the items
+  | inwit (stack : WitStack)                          -- refs = []
+  | wit                                               -- refs = [vtxinwit]
+  | tx (nVersion : Int) (nLockTime : Nat)             -- refs = [vin, vout, wit]
+  | header (h : Header)                               -- refs = []
+  | block (h : Header)                                -- refs = [vtx]
+deriving DecidableEq, Repr
+
+def Scalars.isSeq : Scalars → Bool
+  | .seq _ => true
+  | _ => false
+
+/-- classes without a mutable variant -/
+def Scalars.alwaysImm : Scalars → Bool
+  | .inwit _ | .wit | .header _ | .block _ | .seq .stacks | .seq .txs => true
+  | _ => false
+
+/-- `vin`/`vout`: `from_tx` and `CTransaction.__init__` always build a new list/tuple for them -/
+def Scalars.rebuilt : Scalars → Bool
+  | .seq .ins | .seq .outs => true
+  | _ => false
+
+def asTxIn : Val → Option TxIn | .txin i => some i | _ => none
+def asTxOut : Val → Option TxOut | .txout i => some i | _ => none
+def asStack : Val → Option WitStack | .inwit i => some i | _ => none
+def asTx : Val → Option Tx | .tx i => some i | _ => none
+
+/-- the value of an object from its own slots and the values of the objects it refers to -/
+def assemble : Scalars → List Val → Option Val
+  | .outpoint h n, [] => some (.outpoint ⟨h, n⟩)
+  | .txin s q, [.outpoint o] => some (.txin ⟨o, s, q⟩)
+  | .txout v s, [] => some (.txout ⟨v, s⟩)
+  | .seq .ins, vs => (mapO asTxIn vs).map .ins
+  | .seq .outs, vs => (mapO asTxOut vs).map .outs
+  | .seq .stacks, vs => (mapO asStack vs).map .stacks
+  | .seq .txs, vs => (mapO asTx vs).map .txs
+  | .inwit st, [] => some (.inwit st)
+  | .wit, [.stacks w] => some (.wit w)
+  | .tx ver lock, [.ins vin, .outs vout, .wit w] =>
+      some (.tx { nVersion := ver, vin := vin, vout := vout, wit := w, nLockTime := lock })
+  | .header hd, [] => some (.header hd)
+  | .block hd, [.txs l] => some (.block ⟨hd, l⟩)
+  | _, _ => none
+
+
+/-- the class of an object / of a value as a number (same numbering on both) -/
+def Scalars.kind : Scalars → Nat
+  | .outpoint _ _ => 0 | .txin _ _ => 1 | .txout _ _ => 2 | .inwit _ => 3 | .wit => 4 | .tx _ _ => 5
+  | .header _ => 6 | .block _ => 7 | .seq .ins => 8 | .seq .outs => 9 | .seq .stacks => 10 | .seq .txs => 11
+
+def valKind : Val → Nat
+  | .outpoint _ => 0 | .txin _ => 1 | .txout _ => 2 | .inwit _ => 3 | .wit _ => 4 | .tx _ => 5
+  | .header _ => 6 | .block _ => 7 | .ins _ => 8 | .outs _ => 9 | .stacks _ => 10 | .txs _ => 11
+
+def applySc : Field → Scalars → Option Scalars
+  | .hash b, .outpoint _ n => some (.outpoint b n)
+  | .n k, .outpoint h _ => some (.outpoint h k)
+  | .scriptSig b, .txin _ q => some (.txin b q)
+  | .nSequence k, .txin s _ => some (.txin s k)
+  | .nValue x, .txout _ s => some (.txout x s)
+  | .scriptPubKey b, .txout v _ => some (.txout v b)
+  | .nVersion x, .tx _ l => some (.tx x l)
+  | .nLockTime k, .tx v _ => some (.tx v k)
+  | _, _ => none
+
+
 /-! ### the store of values -/
 
 structure Entry where
